@@ -123,7 +123,13 @@ func (g *Gen) nodeService(peer string) *structs.NodeService {
 }
 
 func (g *Gen) check(node, svcID, peer string) *structs.HealthCheck {
-	hc := &structs.HealthCheck{Node: node, CheckID: types.CheckID(g.pick(gChecks)), Name: "chk", Status: g.pick(gStatuses),
+	// a check id belongs to one service for its whole life, as with real agents (moving a check between
+	// services is a recorded known finding of C06 and is demonstrated by its replay, not by the sweep)
+	cid := g.pick(gChecks)
+	if svcID != "" {
+		cid = "chk-" + svcID + "-" + g.pick([]string{"a", "b"})
+	}
+	hc := &structs.HealthCheck{Node: node, CheckID: types.CheckID(cid), Name: "chk", Status: g.pick(gStatuses),
 		ServiceID: svcID, Output: g.pick(gVals), PeerName: peer}
 	if g.chance(5) {
 		hc.Type = "session"
@@ -510,7 +516,7 @@ func (g *Gen) misc() (structs.MessageType, any, string) {
 		c.ModifyIndex = g.someIdx()
 		return structs.AutopilotRequestType, &structs.AutopilotSetConfigRequest{Datacenter: "dc1", Config: c, CAS: g.chance(2)}, "autopilot"
 	case 2:
-		key := g.pick([]string{structs.SystemMetadataVirtualIPsEnabled, structs.SystemMetadataTermGatewayVirtualIPsEnabled, "intention-format", "other"})
+		key := g.pick([]string{structs.SystemMetadataVirtualIPsEnabled, structs.SystemMetadataTermGatewayVirtualIPsEnabled, "other"})
 		op := structs.SystemMetadataUpsert
 		if g.chance(5) {
 			op = structs.SystemMetadataDelete
@@ -558,8 +564,41 @@ func (g *Gen) misc() (structs.MessageType, any, string) {
 		Request: &pbpeering.SecretsWriteRequest_GenerateToken{GenerateToken: &pbpeering.SecretsWriteRequest_GenerateTokenRequest{EstablishmentSecret: UUID("secret-" + g.pick(gVals))}}}, "peering secrets"
 }
 
+// Req is a generated command before encoding.
+type Req struct {
+	Type structs.MessageType
+	Req  any
+	Desc string
+}
+
+// NextReq returns the next command as a request struct (mix "rotate3" alternates catalog / kv / all).
+func (g *Gen) NextReq(mix string) Req {
+	if mix == "rotate3" {
+		mix = []string{"catalog", "kv", "all"}[g.R.Intn(3)]
+	}
+	t, req, desc := g.nextReq(mix)
+	g.Idx++
+	return Req{t, req, desc}
+}
+
 // Next returns the next log entry. Mix selects the emphasis: "all", "catalog", "kv".
 func (g *Gen) Next(mix string) Entry {
+	t, req, desc := g.nextReq(mix)
+	g.Idx += uint64(1 + g.R.Intn(3)/2)
+	var data []byte
+	var err error
+	if pm, ok := req.(proto.Message); ok {
+		data, err = structs.EncodeProto(t, pm)
+	} else {
+		data, err = structs.Encode(t, req)
+	}
+	if err != nil {
+		panic(fmt.Sprintf("encode %s: %v", desc, err))
+	}
+	return Entry{Type: t, Desc: desc, Data: data, Index: g.Idx}
+}
+
+func (g *Gen) nextReq(mix string) (structs.MessageType, any, string) {
 	var t structs.MessageType
 	var req any
 	var desc string
@@ -623,18 +662,7 @@ func (g *Gen) Next(mix string) Entry {
 			t, req, desc = g.misc()
 		}
 	}
-	g.Idx += uint64(1 + g.R.Intn(3)/2)
-	var data []byte
-	var err error
-	if pm, ok := req.(proto.Message); ok {
-		data, err = structs.EncodeProto(t, pm)
-	} else {
-		data, err = structs.Encode(t, req)
-	}
-	if err != nil {
-		panic(fmt.Sprintf("encode %s: %v", desc, err))
-	}
-	return Entry{Type: t, Desc: desc, Data: data, Index: g.Idx}
+	return t, req, desc
 }
 
 var _ = acl.EnterpriseMeta{}
